@@ -79,7 +79,15 @@ def run(tier):
             verdict.fail({"cls": e["cls"], "clause": clause, "cfg": {"par": e["par"], "value": e["value"], "outcome": e["outcome"]}},
                          {"probe": probes[fl["i"] - 1], "event": e, "clause": clause})
     # (b) NoGarbage over the admissible scan campaigns
-    nog = scans.scan_collect("C20", ("FIN",), fams({"FIN"}, extra=("EHEP", "EPpiston", "Mader")), tier, verdict)
+    fm = fams({"FIN"}, extra=("EHEP", "EPpiston", "Mader"))
+    fm["RadShock"] = ("radshock", {"RAD", "FIN"})
+    fm["SuOlson"] = ("suolson", {"SUOL", "FIN"})
+    for f_ in ("Kenamond1", "Kenamond2", "Kenamond3", "DSDcyl"):
+        fm[f_] = ("burn", {"BURN", "FIN"})
+    fm["Blake"] = ("blake", {"ELAS", "FIN"})
+    for f_ in ("Rod1D", "RodNH", "Sandwich", "Hutchens1", "Rectangle", "Hutchens2"):
+        fm[f_] = ("heat", {"HEAT", "FIN"})
+    nog = scans.scan_collect("C20", ("FIN",), fm, tier, verdict)
     rc = verdict.finish()
     restr = {(p["r"]["cls"], p["r"]["par"], p["r"].get("rel", "member"), json.dumps(p["r"].get("b", p["r"].get("ok")))) for p in probes}
     cov = {"states": res["distinct"] + tv["states"] + nog["states"], "transitions": res["states"] + tv["generated"] + nog["transitions"],
